@@ -209,6 +209,20 @@ fn gen_request(rng: &mut Rng, sc: &Scenario, prop: &str) -> (Vec<u8>, &'static s
                 spec.questions.clear();
             }
         }
+        "c01" | "c02" => {
+            // structurally valid but unusual combinations: no question, other opcodes,
+            // 0/1/2 OPT records with arbitrary version / extended-RCODE octets
+            if rng.chance(1, 8) {
+                spec.questions.clear();
+            }
+            if rng.chance(1, 10) {
+                let opcode = rng.range(1, 15) as u16;
+                spec.flags = (spec.flags & !0x7800) | (opcode << 11);
+            }
+            if rng.chance(1, 4) {
+                shape_opts(rng, sc, &mut spec);
+            }
+        }
         "c08" => {
             if rng.chance(1, 4) {
                 let opcode = rng.range(1, 15) as u16;
@@ -233,6 +247,36 @@ fn gen_request(rng: &mut Rng, sc: &Scenario, prop: &str) -> (Vec<u8>, &'static s
         }
         "c09" => shape_opts(rng, sc, &mut spec),
         _ => {}
+    }
+    if rng.chance(1, 6) {
+        // a zone with a huge RRset (response larger than 16 KiB over TCP) gets asked for it
+        if let Some(h) = sc.names.iter().find(|n| n.0.first().map_or(false, |l| l.eq_ignore_ascii_case(b"huge"))) {
+            if let Some(q) = spec.questions.first_mut() {
+                *q = (Some(NameEnc::Plain(h.clone())), if rng.chance(2, 3) { T_MX } else { 255 }, C_IN);
+            }
+        }
+    }
+    if prop == "c04" && !sc.cfg.keys.is_empty() && rng.chance(1, 4) {
+        // a long QNAME below a loaded zone (NXDOMAIN or wildcard data): together with a long
+        // key name, question + TSIG record approach and exceed the 512-octet limit
+        let apexes: Vec<&RName> = sc.built.reference.entries.iter().filter(|e| matches!(e.state, EntryState::Loaded(_)) && e.class == C_IN).map(|e| &e.name).collect();
+        if !apexes.is_empty() {
+            let mut n = (*rng.pick(&apexes)).clone();
+            let target = rng.range(200, 255);
+            while n.wire_len() < target {
+                let room = target - n.wire_len();
+                let len = if room >= 64 { 63 } else { room.saturating_sub(1).max(1) };
+                let l: Vec<u8> = (0..len).map(|_| *rng.pick(b"qQ")).collect();
+                let c = n.child(&l);
+                if !c.is_valid() {
+                    break;
+                }
+                n = c;
+            }
+            if let Some(q) = spec.questions.first_mut() {
+                *q = (Some(NameEnc::Plain(n)), T_A, C_IN);
+            }
+        }
     }
     // harmless extra records
     if rng.chance(1, 6) {
@@ -598,6 +642,14 @@ fn m04(p: &Classified, server_payload: u16, u: &[u8], t: &[u8]) -> Result<String
             return Err(("tc-with-data".into(), "UDP response has TC set but carries records".into()));
         }
         if t.len() <= limit {
+            // One corner is not judged: over TCP the query ends in SERVFAIL only after a CNAME
+            // chain was written and found to loop or to be too long (the partial chain is then
+            // discarded), while over UDP a link of that chain already fails to fit. The statement's
+            // first clause ("when the complete answer does not fit, set TC") covers the UDP side;
+            // its second clause would require the server to foresee the SERVFAIL.
+            if mt.header.rcode() as u16 == RC_SERVFAIL && no_data(&mt) && no_data(&mu) {
+                return Ok(format!("tc-before-servfail:{}", limit));
+            }
             return Err(("needless-tc".into(), format!("TC set although the complete response ({} octets) fits in {}", t.len(), limit)));
         }
         return Ok(format!("tc:{}", limit));
@@ -906,6 +958,7 @@ pub fn run(ctx: &Ctx, rep: &mut Report, prop: &str) {
                             let mut w = wit(&sc, &req, false, &resp);
                             if let Json::Obj(ref mut items) = w {
                                 items.push(("tcp_response".into(), Json::hex(&t)));
+                                items.push(("zone_data".into(), zone_dump(&sc)));
                             }
                             rep.violation(format!("c04:{}", sig), format!("{} (request {}, server payload {})", detail, hex(&req), sc.cfg.payload), w);
                         }
@@ -941,7 +994,7 @@ pub fn run(ctx: &Ctx, rep: &mut Report, prop: &str) {
                 }
                 _ => unreachable!(),
             }
-            if rep.want_sample() && rng.chance(1, 50) {
+            if rng.chance(1, 50) && rep.want_sample() {
                 let w = wit(&sc, &req, tcp, &resp);
                 rep.sample(|| w);
             }
@@ -1022,7 +1075,7 @@ fn run_c05(rep: &mut Report, rng: &mut Rng, sc: &mut Scenario) {
                 }
                 Err((sig, detail)) => rep.violation(format!("c05:{}", sig), format!("query {} TYPE{} CLASS{} ({}): {}", qn.to_text(), qtype, qclass, exp.kind, detail), w(sc, &resp)),
             }
-            if rep.want_sample() && rng.chance(1, 200) {
+            if rng.chance(1, 200) && rep.want_sample() {
                 let ww = w(sc, &resp);
                 rep.sample(|| ww);
             }
